@@ -152,6 +152,12 @@ def execute(case):
     pos = fe.node_positions(nx, ny, nz, sz)
     chk(alg_close(dom.get_node_position(), pos), 'node_position', got=dom.get_node_position(), ref=pos)
     chk(alg_close(dom.get_node_position(sel), pos[:, sel]), 'node_position_array')
+    # every number of requested nodes from 1 to 4 (one of them equals the space dimension)
+    for cnt in range(1, min(4, dom.nnodes) + 1):
+        pick = np.arange(dom.nnodes)[::-1][:cnt][::-1] if cnt % 2 else np.arange(dom.nnodes)[:cnt][::-1]
+        got = np.asarray(dom.get_node_position(pick))
+        chk(got.shape == (dim, cnt) and alg_close(got, pos[:, pick]), 'node_position_few', count=cnt,
+            got=got, ref=pos[:, pick])
     # element corner positions follow local order
     for e in (0, dom.nel - 1):
         p = dom.get_node_position(dom.conn[e])
